@@ -7,7 +7,11 @@ from sqllineage.core.models import Column, SubQuery, Table
 from sqllineage.core.parser.sqlfluff.extractors.base import BaseExtractor
 from sqllineage.core.parser.sqlfluff.extractors.cte import CteExtractor
 from sqllineage.core.parser.sqlfluff.extractors.select import SelectExtractor
-from sqllineage.core.parser.sqlfluff.models import SqlFluffSubQuery
+from sqllineage.core.parser.sqlfluff.models import (
+    SOURCE_COLUMN_SEGMENT_TYPE,
+    SqlFluffColumn,
+    SqlFluffSubQuery,
+)
 from sqllineage.core.parser.sqlfluff.utils import (
     extract_column_qualifier,
     extract_identifier,
@@ -53,17 +57,31 @@ class MergeExtractor(BaseExtractor):
                             for set_clause in set_clause_list.get_children(
                                 "set_clause"
                             ):
-                                columns = set_clause.get_children("column_reference")
-                                if len(columns) == 2:
-                                    src_col = tgt_col = None
-                                    if src_cqt := extract_column_qualifier(columns[1]):
-                                        src_col = Column(src_cqt.column)
-                                        src_col.parent = direct_source
-                                    if tgt_cqt := extract_column_qualifier(columns[0]):
-                                        tgt_col = Column(tgt_cqt.column)
-                                        tgt_col.parent = list(holder.write)[0]
-                                    if src_col is not None and tgt_col is not None:
-                                        holder.add_column_lineage(src_col, tgt_col)
+                                sub_segments = list_child_segments(set_clause)
+                                if (
+                                    sub_segments
+                                    and sub_segments[0].type == "column_reference"
+                                    and (
+                                        tgt_cqt := extract_column_qualifier(
+                                            sub_segments[0]
+                                        )
+                                    )
+                                ):
+                                    # SET col = <expression>: every column the right hand side refers to feeds col
+                                    tgt_col = Column(tgt_cqt.column)
+                                    tgt_col.parent = list(holder.write)[0]
+                                    for sub_segment in sub_segments[1:]:
+                                        if sub_segment.type in SOURCE_COLUMN_SEGMENT_TYPE:
+                                            for (
+                                                src_cqt
+                                            ) in SqlFluffColumn._extract_source_columns(
+                                                sub_segment
+                                            ):
+                                                src_col = Column(src_cqt.column)
+                                                src_col.parent = direct_source
+                                                holder.add_column_lineage(
+                                                    src_col, tgt_col
+                                                )
                 for merge_when_not_matched_clause in merge_match.get_children(
                     "merge_when_not_matched_clause"
                 ):
@@ -84,14 +102,13 @@ class MergeExtractor(BaseExtractor):
                                     for j, e in enumerate(
                                         bracketed.get_children("literal", "expression")
                                     ):
-                                        if column_reference_optional := e.get_child(
-                                            "column_reference"
-                                        ):
-                                            if (
-                                                cqt := extract_column_qualifier(
-                                                    column_reference_optional
-                                                )
-                                            ) and j < len(insert_columns):
+                                        if j < len(insert_columns):
+                                            # every column the value expression refers to feeds the insert column
+                                            for (
+                                                cqt
+                                            ) in SqlFluffColumn._extract_source_columns(
+                                                e
+                                            ):
                                                 src_col = Column(cqt.column)
                                                 src_col.parent = direct_source
                                                 holder.add_column_lineage(
